@@ -346,7 +346,9 @@ class FeArray(np.ndarray):
         _parent = getattr(np.ndarray, _name)
 
         def _reducer(self, *args, **kwargs):
-            res = _parent(self, *args, **kwargs)
+            # reduce the plain view: numpy's own std/var subtract a keepdims mean from the
+            # array, which must broadcast the plain way and not be re-aligned as a field
+            res = _parent(self.view(np.ndarray), *args, **kwargs)
             axis = kwargs.get("axis", args[0] if args else None)
             if _KeepsFeAxes(axis, self.ndim) and getattr(res, "ndim", 0) >= 2:
                 return res.view(FeArray)
